@@ -28,6 +28,7 @@ import (
 	"strconv"
 	"strings"
 	"sync"
+	"sync/atomic"
 	"time"
 
 	"github.com/pingcap/failpoint"
@@ -48,6 +49,7 @@ import (
 	"github.com/tikv/client-go/v2/oracle"
 	"github.com/tikv/client-go/v2/tikv"
 	"github.com/tikv/client-go/v2/tikvrpc"
+	"github.com/tikv/client-go/v2/tikvrpc/interceptor"
 	"github.com/tikv/client-go/v2/txnkv/txnlock"
 	"github.com/tikv/client-go/v2/txnkv/txnsnapshot"
 	"github.com/tikv/client-go/v2/util"
@@ -312,12 +314,54 @@ type hijack struct {
 }
 
 type env struct {
+	opts        int    // option plumbing bit mask of this history
+	intercepted int64  // requests seen by the snapshot's RPC interceptor
+	killed      uint32 // kv.Variables.Killed
 	prefix  []byte // keyspace prefix of an API v2 history
 	h       *history
 	mvcc    mocktikv.MVCCStore
 	cluster *mocktikv.Cluster
 	store   *tikv.KVStore
 	hj      *hijack
+}
+
+// snap: a snapshot with the option plumbing of this history switched on (none for half of the histories):
+// runtime stats, configurable read timeout, RPC interceptor, resource group tag/name/task id/not-fill-cache,
+// stale read, replica read + load based threshold, variables.  None of them may change an answer.
+func (e *env) snap(ts uint64) *txnsnapshot.KVSnapshot {
+	s := e.store.GetSnapshot(ts)
+	o := e.opts
+	if o&1 != 0 {
+		s.SetRuntimeStats(&txnsnapshot.SnapshotRuntimeStats{})
+	}
+	if o&2 != 0 {
+		s.SetKVReadTimeout(2 * time.Second)
+	}
+	if o&4 != 0 {
+		s.AddRPCInterceptor(interceptor.NewRPCInterceptor("verif", func(next interceptor.RPCInterceptorFunc) interceptor.RPCInterceptorFunc {
+			return func(target string, req *tikvrpc.Request) (*tikvrpc.Response, error) {
+				atomic.AddInt64(&e.intercepted, 1)
+				return next(target, req)
+			}
+		}))
+	}
+	if o&8 != 0 {
+		s.SetResourceGroupTagger(func(req *tikvrpc.Request) { req.ResourceGroupTag = []byte("verif") })
+		s.SetResourceGroupName("rg")
+		s.SetTaskID(7)
+		s.SetNotFillCache(true)
+	}
+	if o&16 != 0 {
+		s.SetIsStalenessReadOnly(true)
+	}
+	if o&32 != 0 {
+		s.SetReplicaRead(kv.ReplicaReadMixed)
+		s.SetLoadBasedReplicaReadThreshold(time.Second)
+	}
+	if o&64 != 0 {
+		s.SetVars(kv.NewVariables(&e.killed))
+	}
+	return s
 }
 
 func (e *env) regionCount() int { return len(e.cluster.GetAllRegions()) }
@@ -1020,7 +1064,7 @@ func (e *env) scheduleTopo(r *rand.Rand) {
 
 func (e *env) scanCase(lines *[]string, label string, ts uint64, lo, hi []byte, batch int, ko, rev bool, topo bool) {
 	r := e.h.rnd
-	s := e.store.GetSnapshot(ts)
+	s := e.snap(ts)
 	s.SetScanBatchSize(batch)
 	s.SetKeyOnly(ko)
 	if topo {
@@ -1070,7 +1114,7 @@ func (e *env) reads(tier string) []string {
 		if !(t.kind == kCommitPrim || t.kind == kRollbackPrim || t.kind == kExpired || t.kind == kPushable || t.kind == kLiveFinish) || r.Intn(2) == 0 {
 			continue
 		}
-		sp := e.store.GetSnapshot(t.start)
+		sp := e.snap(t.start)
 		sp.SetPipelined(t.start)
 		ks := allKeys
 		if r.Intn(3) == 0 {
@@ -1116,7 +1160,7 @@ func (e *env) reads(tier string) []string {
 	}
 	// the order of the first contact with the locks varies
 	order := r.Intn(4)
-	s1 := e.store.GetSnapshot(h.ts1)
+	s1 := e.snap(h.ts1)
 	first := func() {
 		switch order {
 		case 0: // cold batch get first
@@ -1140,7 +1184,7 @@ func (e *env) reads(tier string) []string {
 	}
 	bgetL("warm", s1, h.ts1, allKeys)
 	bgetL("warm-sub", s1, h.ts1, pick(r, 1+r.Intn(len(allKeys)), allKeys))
-	s1b := e.store.GetSnapshot(h.ts1)
+	s1b := e.snap(h.ts1)
 	e.scheduleTopo(r)
 	bgetL("cold2", s1b, h.ts1, allKeys)
 	for _, k := range pick(r, 3, allKeys) {
@@ -1202,7 +1246,7 @@ func (e *env) reads(tier string) []string {
 	// the SAME key slice object reused over a partly warm cache: some keys read by Get first, then
 	// BatchGet twice with one slice; the second call must still be asked for (and answer) every key
 	for round := 0; round < 2; round++ {
-		sa := e.store.GetSnapshot(h.ts1)
+		sa := e.snap(h.ts1)
 		own := append([][]byte{}, allKeys...)
 		if round == 1 {
 			own = pick(r, 2+r.Intn(len(allKeys)), allKeys)
@@ -1219,7 +1263,7 @@ func (e *env) reads(tier string) []string {
 	// fabricated abort) while other regions answered; the SAME snapshot is then read again through every
 	// path: a failed call must not leave anything behind
 	for round := 0; round < 2; round++ {
-		sf := e.store.GetSnapshot(h.ts1)
+		sf := e.snap(h.ts1)
 		if round == 1 { // partly warm before the fault
 			for _, k := range pick(r, 1+r.Intn(3), allKeys) {
 				getL("fault-warmup", sf, h.ts1, k)
@@ -1264,7 +1308,7 @@ func (e *env) reads(tier string) []string {
 		if asyncMode {
 			label = "lockans-async"
 		}
-		sl := e.store.GetSnapshot(h.ts1)
+		sl := e.snap(h.ts1)
 		if round >= 2 {
 			for _, k := range pick(r, 1+r.Intn(3), allKeys) {
 				getL("lockans-warmup", sl, h.ts1, k)
@@ -1286,7 +1330,7 @@ func (e *env) reads(tier string) []string {
 	}
 	// a cache program: gets / batch gets / SetSnapshotTS / failing calls interleaved on one snapshot
 	{
-		sc := e.store.GetSnapshot(h.ts1)
+		sc := e.snap(h.ts1)
 		hasLive := false
 		for _, t := range h.txns {
 			if t.kind == kLiveFinish || t.kind == kPushable { // pushable ones are committed by the forward-move section
@@ -1346,7 +1390,7 @@ func (e *env) reads(tier string) []string {
 		spTS := h.ts1 + 1
 		tsHigh := spTS + 10
 		e.store.UpdateTxnSafePointCache(spTS, time.Now())
-		sc := e.store.GetSnapshot(h.ts1)
+		sc := e.snap(h.ts1)
 		var ops, res []string
 		n := 6 + r.Intn(6)
 		for i := 0; i < n; i++ {
@@ -1382,7 +1426,7 @@ func (e *env) reads(tier string) []string {
 		}
 		nowPhys := oracle.GetPhysical(time.Now())
 		commitTS, tsF := oracle.ComposeTS(nowPhys+2000, 0), oracle.ComposeTS(nowPhys+4000, 0)
-		sA, sB := e.store.GetSnapshot(h.ts1), e.store.GetSnapshot(h.ts1)
+		sA, sB := e.snap(h.ts1), e.snap(h.ts1)
 		sB.SetPipelined(tsAt(0, 1))
 		snaps := []*txnsnapshot.KVSnapshot{sA, sB}
 		names := []string{"fm", "fm-pipelined"}
@@ -1413,7 +1457,7 @@ func (e *env) reads(tier string) []string {
 			sn.SetSnapshotTS(tsF)
 			bgetL(names[j]+"-again", sn, tsF, allKeys)
 		}
-		bgetL("fm-fresh", e.store.GetSnapshot(tsF), tsF, allKeys)
+		bgetL("fm-fresh", e.snap(tsF), tsF, allKeys)
 		e.scanCase(&lines, "fm-fresh", tsF, nil, nil, batchSizes[r.Intn(4)], false, r.Intn(2) == 0, false)
 		break
 	}
@@ -1480,6 +1524,9 @@ func runHistory(seed int64, hid int, tier string) {
 	defer restore()
 	e := newEnv(h)
 	defer e.store.Close()
+	if hid%2 == 1 && hid < regressionHIDks {
+		e.opts = 1 + h.rnd.Intn(127)
+	}
 	e.build()
 	var lines []string
 	if hid == regressionHID || hid == regressionHID1 || hid == regressionHIDks {
@@ -1508,6 +1555,11 @@ func runHistory(seed int64, hid int, tier string) {
 	aliasLog = nil
 	fmt.Fprintf(out, "ALIAS\t%d\tnone\t=>\tchecked\n", hid)
 	fmt.Fprintf(out, "MODE\t%d\tasync=%v\tcommitts=%v keyspace=%v\tasyncRPCs=%d\n", hid, asyncBG, withCommitTS, h.keyspace, e.hj.asyncSent)
+	optRes := "ok"
+	if e.opts&4 != 0 && e.hj.readRPCs > 0 && atomic.LoadInt64(&e.intercepted) == 0 {
+		optRes = "interceptor-never-called"
+	}
+	fmt.Fprintf(out, "OPTS\t%d\t%d\tintercepted=%d\t=>\t%s\n", hid, e.opts, atomic.LoadInt64(&e.intercepted), optRes)
 	e.hj.mu.Unlock()
 }
 
